@@ -100,6 +100,13 @@ class RosenbrockFunctional(Functional):
         super(RosenbrockFunctional, self).__init__(
             space, linear=False, grad_lipschitz=np.inf)
 
+    def _weights(self):
+        """Weights of the domain's inner product (array or constant)."""
+        weighting = self.domain.weighting
+        if hasattr(weighting, 'array'):
+            return np.asarray(weighting.array)
+        return getattr(weighting, 'const', 1.0)
+
     def _call(self, x):
         """Return ``self(x)``."""
         result = 0
@@ -133,6 +140,8 @@ class RosenbrockFunctional(Functional):
                 out[0] = (-4 * c * (x[1] - x[0] ** 2) * x[0] +
                           2 * (x[0] - 1))
                 out[-1] = 2 * c * (x[-1] - x[-2] ** 2)
+                # Riesz representative w.r.t. the weighted inner product
+                out /= functional._weights()
 
             def derivative(self, x):
                 """The derivative of the gradient.
@@ -152,6 +161,8 @@ class RosenbrockFunctional(Functional):
                     matrix[i, i + 1] = -4 * c * x[i]
                 matrix[-1, -1] = 2 * c
                 matrix[0, 0] = 2 + 12 * c * x[0] ** 2 - 4 * c * x[1]
+                matrix /= np.reshape(functional._weights() * np.ones(
+                    functional.domain.size), (-1, 1))
                 return MatrixOperator(matrix, self.domain, self.range)
 
         return RosenbrockGradient()
